@@ -75,6 +75,7 @@ type CCase struct {
 	States  []string `json:"node_states"` // connected | refused | server-killed
 	Calls   []string `json:"in_flight_calls"`
 	Strike  string   `json:"close_strikes_at"` // idle | enq.registered | snd.dequeued | snd.beforeWrite | awaiting-reply | rec.backoff
+	Block   bool     `json:"blocking_dial"`
 	Closers int      `json:"concurrent_closes"`
 	Twice   bool     `json:"close_twice"`
 }
@@ -120,8 +121,9 @@ func RunClose(e *Env) {
 	for i := 0; i < e.Pick(120, 3000); i++ {
 		c := CCase{Buffer: []uint{0, 1, 4, 64}[rng.Intn(4)], N: 1 + rng.Intn(3), Strike: strikes[rng.Intn(len(strikes))], Closers: []int{1, 1, 2, 8}[rng.Intn(4)], Twice: rng.Intn(3) == 0}
 		for j := 0; j < c.N; j++ {
-			c.States = append(c.States, []string{"connected", "connected", "refused", "server-killed"}[rng.Intn(4)])
+			c.States = append(c.States, []string{"connected", "connected", "refused", "server-killed", "down-then-up"}[rng.Intn(5)])
 		}
+		c.Block = rng.Intn(2) == 0
 		if c.Strike != "idle" && c.Strike != "rec.backoff" {
 			c.States[0] = "connected"
 		}
@@ -132,6 +134,16 @@ func RunClose(e *Env) {
 			c.Calls = append(c.Calls, kinds[rng.Intn(len(kinds))])
 		}
 		cases = append(cases, c)
+	}
+	// the combination the dial/close interplay needs, for every buffer size: blocking dial failed at creation, node up again at Close
+	for rep := 0; rep < e.Pick(12, 60); rep++ {
+		for _, b := range []uint{4, 16, 64} {
+			st := "down-then-up"
+			if rep%3 != 0 {
+				st = "down-then-up-after-close"
+			}
+			cases = append(cases, CCase{Buffer: b, N: 1 + rep%2, States: []string{st, "connected"}[:1+rep%2], Calls: nil, Strike: "idle", Block: true, Closers: 1})
+		}
 	}
 	for i, c := range cases {
 		if e.Of > 1 && i%e.Of != e.Batch {
@@ -196,8 +208,17 @@ func runCloseCase(e *Env, idx int, c CCase) {
 		nodeMap[addrs[j]] = ids[j]
 	}
 	bk := backoff.Config{BaseDelay: 3 * time.Second, Multiplier: 1, Jitter: 0, MaxDelay: 3 * time.Second}
-	mgr := puppet.NewManager(gorums.WithDialTimeout(300*time.Millisecond), gorums.WithSendBufferSize(c.Buffer), gorums.WithBackoff(bk),
-		gorums.WithGrpcDialOptions(grpc.WithTransportCredentials(insecure.NewCredentials())))
+	dialOpts := []grpc.DialOption{grpc.WithTransportCredentials(insecure.NewCredentials())}
+	if c.Block {
+		dialOpts = append(dialOpts, grpc.WithBlock())
+	}
+	for j := 0; j < c.N; j++ {
+		if strings.HasPrefix(c.States[j], "down-then-up") {
+			sc.cmdLine(fmt.Sprintf("STOP %d", j)) // down while the manager is created (a blocking dial fails), up again around Close
+		}
+	}
+	mgr := puppet.NewManager(gorums.WithDialTimeout(100*time.Millisecond), gorums.WithSendBufferSize(c.Buffer), gorums.WithBackoff(bk),
+		gorums.WithGrpcDialOptions(dialOpts...))
 	qs := &h.QSpec{}
 	var cfg *puppet.Configuration
 	t0 := h.Go("NewConfiguration", func() { cfg, err = mgr.NewConfiguration(gorums.WithNodeMap(nodeMap), qs) })
@@ -260,6 +281,19 @@ func runCloseCase(e *Env, idx int, c CCase) {
 	for _, k := range c.Calls {
 		inflight = append(inflight, issue(k, context.Background(), 77))
 	}
+	calls := append([]string(nil), c.Calls...)
+	if c.Buffer > 0 {
+		// fill the send buffers of every node (single-node calls), so that requests are queued when Close strikes
+		for j := 0; j < c.N; j++ {
+			for k := 0; k < int(min(c.Buffer, 24)) && (len(c.Calls) == 0 || k < 3); k++ {
+				jj := j
+				tok := h.NewToken()
+				req := &puppet.Req{Call: tok, Seq: tok, Kind: 77}
+				inflight = append(inflight, h.Go("c12:RPC", func() { node(jj).RPC(context.Background(), req) }))
+				calls = append(calls, "RPC")
+			}
+		}
+	}
 	steering := ""
 	if hold != nil {
 		select {
@@ -271,6 +305,13 @@ func runCloseCase(e *Env, idx int, c CCase) {
 	} else {
 		time.Sleep(10 * time.Millisecond)
 	}
+	// a node that was down when the manager was created comes up just before Close: the sender is in the middle of a
+	// (failing) dial for the first queued request and may dial again, successfully, for the next one after Close
+	for j := 0; j < c.N; j++ {
+		if c.States[j] == "down-then-up" {
+			sc.cmdLine(fmt.Sprintf("START %d", j))
+		}
+	}
 	// Close
 	var closers []*h.Task
 	for k := 0; k < c.Closers; k++ {
@@ -281,6 +322,22 @@ func runCloseCase(e *Env, idx int, c CCase) {
 		e.Hooks.Disarm(hold)
 	}
 	det := map[string]any{"case": c, "steering": steering}
+	for j := 0; j < c.N; j++ {
+		if c.States[j] == "down-then-up-after-close" {
+			// Close is (legitimately) waiting for the dial in progress; the node becomes reachable now, i.e. before that dial
+			// gives up: whichever of Close and the sender's next dial comes first, no connection may be left behind.
+			// The sender may go on serving buffered requests (one dial each) after Close has returned.
+			time.Sleep(time.Duration(20+10*(idx%6)) * time.Millisecond)
+			sc.cmdLine(fmt.Sprintf("START %d", j))
+			for _, t := range closers {
+				select {
+				case <-t.Done:
+				case <-time.After(e.W):
+				}
+			}
+			time.Sleep(400 * time.Millisecond)
+		}
+	}
 	for _, t := range closers {
 		hi := h.Await(t, e.W)
 		if hi.Verdict == h.Hung {
@@ -307,12 +364,12 @@ func runCloseCase(e *Env, idx int, c CCase) {
 		if hi.Verdict == h.Hung {
 			det["stack"] = hi.Stack
 			det["others"] = hi.Others
-			R.Violate("in-flight-call-stranded:"+callClass(strings.TrimSuffix(c.Calls[i], "-nowait"))+":"+hi.Sig, fmt.Sprintf("%s in progress when Close struck (%s) never returned: %s", c.Calls[i], c.Strike, hi.Sig), det)
+			R.Violate("in-flight-call-stranded:"+callClass(strings.TrimSuffix(calls[i], "-nowait"))+":"+hi.Sig, fmt.Sprintf("%s in progress when Close struck (%s) never returned: %s", calls[i], c.Strike, hi.Sig), det)
 			return
 		}
 		if t.Panic != nil {
 			det["panic"] = t.Panic
-			R.Violate("in-flight-call-panics", fmt.Sprintf("%s panicked: %.200v", c.Calls[i], t.Panic), det)
+			R.Violate("in-flight-call-panics", fmt.Sprintf("%s panicked: %.200v", calls[i], t.Panic), det)
 			return
 		}
 	}
